@@ -110,6 +110,167 @@ let suite_yuv_img which path =
       | _ -> failwith ("bad case line: " ^ line))
     (read_lines path)
 
+(* ---------------- decoder histories ---------------- *)
+let fnv (l : int list) : string =
+  (* FNV-1a, 64 bit (OCaml ints are 63 bit: keep two 32-bit halves) *)
+  let hi = ref 0xcbf29ce4 and lo = ref 0x84222325 in
+  Stdlib.List.iter (fun b ->
+    lo := !lo lxor (b land 255);
+    (* multiply (hi:lo) by 0x100000001b3 = 2^40 + 0x1b3 *)
+    let l0 = !lo and h0 = !hi in
+    let p_lo = l0 * 0x1b3 in
+    let new_lo = p_lo land 0xffffffff in
+    let carry = p_lo lsr 32 in
+    let new_hi = (h0 * 0x1b3 + carry + ((l0 lsl 8) land 0xffffffff)) land 0xffffffff in
+    lo := new_lo; hi := new_hi) l;
+  Printf.sprintf "%08x%08x" !hi !lo
+
+let opt f = function None -> "-" | Some x -> f x
+let zs x = string_of_int (i x)
+
+let par_str = function
+  | Header.Square -> "Sq" | Header.Par12_11 -> "12_11" | Header.Par10_11 -> "10_11"
+  | Header.Par16_11 -> "16_11" | Header.Par40_33 -> "40_33"
+  | Header.ParReserved r -> Printf.sprintf "R(%d)" (i r)
+  | Header.ParExtended (w, h) -> Printf.sprintf "X(%d,%d)" (i w) (i h)
+
+let fmt_str = function
+  | Header.SubQcif -> "Sub" | Header.QuarterCif -> "Q" | Header.FullCif -> "F" | Header.FourCif -> "4"
+  | Header.SixteenCif -> "16" | Header.SfReserved -> "Res"
+  | Header.Extended (p, w, h) -> Printf.sprintf "Ext(%s,%d,%d)" (par_str p) (i w) (i h)
+
+let type_str = function
+  | Header.IFrame -> "I" | Header.PFrame -> "P" | Header.PbFrame -> "PB" | Header.ImprovedPbFrame -> "IPB"
+  | Header.BFrame -> "B" | Header.EiFrame -> "EI" | Header.EpFrame -> "EP"
+  | Header.PtReserved r -> Printf.sprintf "Res(%d)" (i r) | Header.DisposablePFrame -> "D"
+
+let hdr_str (h : Header.picture) : string =
+  Printf.sprintf "ver=%s tr=%d fmt=%s opts=%d plus=%d opp=%d type=%s mvr=%s sss=%s layer=%s rpsm=%s trp=%s q=%d mux=%s pbr=%s pbq=%s extra=%s"
+    (opt zs h.Header.version) (i h.Header.temporal_reference) (opt fmt_str h.Header.format) (i h.Header.options)
+    (if h.Header.has_plusptype then 1 else 0) (if h.Header.has_opptype then 1 else 0)
+    (type_str h.Header.picture_type)
+    (opt (function Header.MvExtended -> "E" | Header.MvUnlimited -> "U") h.Header.motion_vector_range)
+    (opt zs h.Header.slice_submode)
+    (opt (fun (e, r) -> Printf.sprintf "%d/%s" (i e) (opt zs r)) h.Header.scalability_layer)
+    (opt zs h.Header.rps_mode) (opt zs h.Header.prediction_reference) (i h.Header.quantizer)
+    (opt zs h.Header.multiplex_bitstream) (opt zs h.Header.pb_reference) (opt zs h.Header.pb_quantizer)
+    (hex_of_zs h.Header.extra)
+
+let err_name (e : Prelude.err_kind) : string =
+  match e with
+  | Prelude.EInternal -> "Internal" | Prelude.EMiddleOfBitstream -> "MiddleOfBitstream"
+  | Prelude.EInvalidMacroblockHeader -> "InvalidMacroblockHeader"
+  | Prelude.EInvalidMacroblockCodedBits -> "InvalidMacroblockCodedBits"
+  | Prelude.EInvalidIntraDc -> "InvalidIntraDc" | Prelude.EInvalidShortCoefficient -> "InvalidShortCoefficient"
+  | Prelude.EInvalidLongCoefficient -> "InvalidLongCoefficient" | Prelude.EInvalidMvd -> "InvalidMvd"
+  | Prelude.EInvalidPType -> "InvalidPType" | Prelude.EInvalidPlusPType -> "InvalidPlusPType"
+  | Prelude.EInvalidGobHeader -> "InvalidGobHeader" | Prelude.EInvalidBitstream -> "InvalidBitstream"
+  | Prelude.EPictureFormatMissing -> "PictureFormatMissing" | Prelude.EPictureFormatInvalid -> "PictureFormatInvalid"
+  | Prelude.EUncodedIFrameBlocks -> "UncodedIFrameBlocks" | Prelude.EEof -> "Eof"
+  | Prelude.EUnimplemented -> "Unimplemented"
+
+let plane_str full (p : Recon.plane) : string =
+  let d = Stdlib.List.map i (Recon.plane_data p) in
+  if full then hex_of_ints d else fnv d
+
+let pic_str full (d : Recon.decoded_picture) : string =
+  Printf.sprintf "[%s %dx%d/%d %s %s %s]" (hdr_str d.Recon.d_header) (i (Recon.d_width d)) (i (Recon.d_height d))
+    (i d.Recon.d_chroma_w) (plane_str full d.Recon.d_luma) (plane_str full d.Recon.d_cb) (plane_str full d.Recon.d_cr)
+
+let next_str (r : Reader.reader) : string =
+  let rec go n l acc = if n = 0 then acc else match l with [] -> acc | b :: t -> go (n - 1) t (acc ^ (if b then "1" else "0")) in
+  let s = go 64 r.Reader.rbits "" in if s = "" then "-" else s
+
+let state_str full (st : Decoder.state) : string =
+  Printf.sprintf "L%s R%s" (opt (pic_str full) (Decoder.get_last_picture st))
+    (opt (fun d -> Printf.sprintf "[%d %s]" (i d.Recon.d_header.Header.temporal_reference) (plane_str full d.Recon.d_luma))
+       (Decoder.get_reference_picture st))
+
+let model_area_limit = 65536
+
+let suite_decode full path =
+  Stdlib.List.iter
+    (fun line ->
+      match split_ws line with
+      | idx :: o :: ops ->
+          let o = int_of_string o in
+          let opts = { Header.sorenson = (o land 1 = 1); Header.scalability = (o land 2 = 2) } in
+          let st = ref (Decoder.new_state opts) in
+          let session = ref (Reader.reader_of_bytes []) in
+          let buf = Buffer.create 256 in
+          let dead = ref false in
+          (* memory guard (the property's own exclusion): declared area of the picture about to be decoded *)
+          let declared_area (r : Reader.reader) : int =
+            let prev = match Decoder.get_last_picture !st with Some p -> Some p.Recon.d_header | None -> None in
+            match Header.decode_picture opts prev r with
+            | Prelude.Ok (Some h, _) ->
+                let fmt = match h.Header.format with
+                  | Some f -> Some f
+                  | None -> (match Decoder.get_last_picture !st with Some p -> Some p.Recon.d_format | None -> None) in
+                (match fmt with
+                 | Some f -> (match Header.into_width_and_height f with Some (w, hh) -> i w * i hh | None -> 0)
+                 | None -> 0)
+            | _ -> 0 in
+          let decode_with (r : Reader.reader) (store : Reader.reader -> unit) =
+            let area = declared_area r in
+            if area > 16777216 then Buffer.add_string buf "excluded"
+            else if area > model_area_limit then (Buffer.add_string buf "skipped-big"; dead := true)
+            else
+            match Decoder.decode_next_picture !st r with
+            | Prelude.Ok (st', r') -> st := st'; store r';
+                Buffer.add_string buf (Printf.sprintf "ok %s next=%s" (state_str full !st) (next_str r'))
+            | Prelude.Err e ->
+                Buffer.add_string buf (Printf.sprintf "err:%s %s next=%s" (err_name e) (state_str full !st) (next_str r))
+            | Prelude.Panic p -> Buffer.add_string buf ("panic:" ^ panic_name p); dead := true
+            | Prelude.OutOfFuel -> Buffer.add_string buf "outoffuel"; dead := true in
+          Stdlib.List.iter (fun op ->
+            if not !dead then begin
+              Buffer.add_string buf " | ";
+              let arg = if String.length op > 2 then String.sub op 2 (String.length op - 2) else "" in
+              match op.[0] with
+              | 'D' -> decode_with (Reader.reader_of_bytes (zs_of_hex arg)) (fun _ -> ())
+              | 'S' ->
+                  session := { Reader.rbits = !session.Reader.rbits @ Reader.bits_of_bytes (zs_of_hex arg);
+                               Reader.rpos = !session.Reader.rpos };
+                  decode_with !session (fun r' -> session := r')
+              | 'R' -> decode_with !session (fun r' -> session := r')
+              | 'C' -> st := Decoder.cleanup_buffers !st;
+                  Buffer.add_string buf (Printf.sprintf "cleanup %s" (state_str full !st))
+              | 'B' ->
+                  (match Reader.read_bits (z 32) (z (int_of_string arg)) !session with
+                   | Prelude.Ok (v, r') -> session := r'; Buffer.add_string buf (Printf.sprintf "bits=%d" (i v))
+                   | Prelude.Err e -> Buffer.add_string buf ("bits:err:" ^ err_name e)
+                   | _ -> Buffer.add_string buf "bits:panic")
+              | _ -> failwith ("bad op " ^ op)
+            end) ops;
+          Printf.printf "%s%s\n" idx (Buffer.contents buf)
+      | [] -> ()
+      | _ -> failwith ("bad case line: " ^ line))
+    (read_lines path)
+
+let suite_header path =
+  Stdlib.List.iter
+    (fun line ->
+      match split_ws line with
+      | [ idx; o; prevhex; pfn; hex ] ->
+          let o = int_of_string o in
+          let opts = { Header.sorenson = (o land 1 = 1); Header.scalability = (o land 2 = 2) } in
+          let prev =
+            if prevhex = "-" then None
+            else match Header.decode_picture opts None (Reader.reader_of_bytes (zs_of_hex prevhex)) with
+              | Prelude.Ok (Some p, _) -> Some (if pfn = "1" then { p with Header.format = None } else p)
+              | _ -> failwith "prev header must parse" in
+          let r = Reader.reader_of_bytes (zs_of_hex hex) in
+          (match Header.decode_picture opts prev r with
+           | Prelude.Ok (Some h, r') -> Printf.printf "%s ok %s next=%s\n" idx (hdr_str h) (next_str r')
+           | Prelude.Ok (None, r') -> Printf.printf "%s gob next=%s\n" idx (next_str r')
+           | Prelude.Err e -> Printf.printf "%s err:%s next=%s\n" idx (err_name e) (next_str r)
+           | Prelude.Panic _ -> Printf.printf "%s panic\n" idx
+           | Prelude.OutOfFuel -> Printf.printf "%s outoffuel\n" idx)
+      | [] -> ()
+      | _ -> failwith ("bad case line: " ^ line))
+    (read_lines path)
+
 let suite_strength_table () =
   Printf.printf "model %s\n"
     (String.concat "," (Stdlib.List.map (fun x -> string_of_int (i x)) Deblock.quant_to_strength));
@@ -125,4 +286,6 @@ let () =
   | _ :: "strength-table" :: _ -> suite_strength_table ()
   | _ :: "yuv-table" :: which :: o :: a :: b :: c :: _ -> suite_yuv_table which o a b c
   | _ :: "yuv-img" :: which :: p :: _ -> suite_yuv_img which p
+  | _ :: "decode" :: mode :: p :: _ -> suite_decode (mode = "full") p
+  | _ :: "header" :: p :: _ -> suite_header p
   | _ -> prerr_endline "usage: driver <suite> [file]"; exit 2
